@@ -183,7 +183,7 @@ unsafe fn set_profile(w: &mut World, p: u8) {
     let cfg = w.cfg;
     let tiny = CString::new(format!("{}/fixtures/micro_db", verif_root())).unwrap();
     let phonetic = CString::new("avro_phonetic").unwrap();
-    let probhat = CString::new("/repo/data/Probhat.json").unwrap();
+    let probhat = CString::new(format!("{}/data/Probhat.json", std::env::var("VERIF_REPO").ok().filter(|s| !s.is_empty()).unwrap_or_else(|| "/repo".to_string()))).unwrap();
     let bad = CString::new("/nonexistent/layout.json").unwrap();
     // a rejected path first: the setter must leave the config usable
     if riti_config_set_layout_file(cfg, bad.as_ptr()) {
